@@ -189,7 +189,7 @@ def finish_svd(eng, acc, task, A0, q0, q1, tol, u, s, v, q, snap, inputs, fails,
                 dsq = Sym()
                 for x in disc:
                     dsq = dsq + S(x) * S(x)
-                if prover.prove_escalating(eng, [err - dsq], rounds=(2,), acc=acc, label='vc_error_identity', max_products=40000) != 'proved':
+                if prover.prove_escalating(eng, [err - dsq], rounds=(2, 3), acc=acc, label='vc_error_identity', max_products=60000, timeout_ms=90000) != 'proved':
                     fails.append('||A - u s v||_F^2 differs from the sum of the discarded squared singular values')
                 eng.mark('error_identity_checked')
             fails += sparsity_vcs(eng, acc, u, [np.asarray(q0, dtype=object), -np.asarray(q, dtype=object)], 'u')
